@@ -189,6 +189,7 @@ var clientCtxPool = sync.Pool{
 
 func acquireCtx(req *fasthttp.Request, res *fasthttp.Response) *Ctx {
 	ctx := clientCtxPool.Get().(*Ctx)
+	verifPoolGet(5, ctx)
 
 	// Nothing else refers to a Ctx that came out of the pool, so these are
 	// plain writes. A resolve that landed after the last caller stopped reading
@@ -217,6 +218,7 @@ func releaseCtx(ctx *Ctx) {
 
 	ctx.conn.Store(nil)
 
+	verifPoolPut(5, ctx)
 	clientCtxPool.Put(ctx)
 }
 
